@@ -181,167 +181,6 @@ func init() {
 		},
 	})
 
-	register(&Rule{
-		ID: "reload.equal-means-same-object", Props: []string{"C14"}, Floor: 6,
-		Doc: "in the three controller / breaker builders, on the branch where an equal old rule was found the element appended to the new list is the old object at that index and no generator is invoked; when only the statistic is reusable the generator receives the old object's statistic; otherwise it receives nil",
-		Run: func(c *Ctx) {
-			builders := []string{"core/flow.buildResourceTrafficShapingController", "core/hotspot.buildResourceTrafficShapingController", "core/circuitbreaker.BuildResourceCircuitBreaker"}
-			for _, bn := range builders {
-				f := c.P.Func(bn)
-				if f == nil {
-					c.AnchorLost(bn)
-					continue
-				}
-				var oldP *ssa.Parameter
-				for _, p := range f.Params {
-					if _, ok := p.Type().Underlying().(*types.Slice); ok {
-						oldP = p // last slice parameter = old controllers
-					}
-				}
-				// the reuse indices: results #0 (equal) and #1 (statistic reusable) of calculateReuseIndexFor
-				var eqIdx, reuseIdx ssa.Value
-				eachInstr(f, func(ins ssa.Instruction) {
-					if ex, ok := ins.(*ssa.Extract); ok {
-						if call, ok := ex.Tuple.(*ssa.Call); ok && call.Call.StaticCallee() != nil && call.Call.StaticCallee().Name() == "calculateReuseIndexFor" {
-							if ex.Index == 0 {
-								eqIdx = ex
-							} else if ex.Index == 1 {
-								reuseIdx = ex
-							}
-						}
-					}
-				})
-				if eqIdx == nil || reuseIdx == nil {
-					c.Violate(fnKey(f)+" / reuse-index", f.Pos(), "the builder no longer computes the equal / statistic-reusable index of the old controllers")
-					continue
-				}
-				nonNeg := func(b *ssa.BasicBlock, v ssa.Value) bool {
-					for _, ft := range condFacts(b) {
-						bo, ok := ft.Cond.(*ssa.BinOp)
-						if !ok {
-							continue
-						}
-						z, isZ := constInt(bo.Y)
-						if bo.X == v && isZ && z == 0 && ((bo.Op == token.GEQ && ft.Truth) || (bo.Op == token.LSS && !ft.Truth)) {
-							return true
-						}
-					}
-					return false
-				}
-				fromOld := func(v ssa.Value) bool {
-					seen := map[ssa.Value]bool{}
-					var walk func(x ssa.Value) bool
-					walk = func(x ssa.Value) bool {
-						if seen[x] {
-							return false
-						}
-						seen[x] = true
-						switch t := x.(type) {
-						case *ssa.Parameter:
-							return t == oldP
-						case *ssa.Phi:
-							for _, e := range t.Edges {
-								if walk(e) {
-									return true
-								}
-							}
-						case *ssa.Slice:
-							return walk(t.X)
-						case *ssa.Call:
-							if b, ok := t.Call.Value.(*ssa.Builtin); ok && b.Name() == "append" {
-								return walk(t.Call.Args[0])
-							}
-						}
-						return false
-					}
-					return walk(v)
-				}
-				// does value v derive from old[idx]?
-				var derivesFromIndex func(v ssa.Value, idx ssa.Value, d int) bool
-				derivesFromIndex = func(v ssa.Value, idx ssa.Value, d int) bool {
-					if d > 6 {
-						return false
-					}
-					switch t := stripConv(v).(type) {
-					case *ssa.UnOp:
-						return derivesFromIndex(t.X, idx, d+1)
-					case *ssa.IndexAddr:
-						return t.Index == idx && fromOld(t.X)
-					case *ssa.FieldAddr:
-						return derivesFromIndex(t.X, idx, d+1)
-					case *ssa.Call:
-						if t.Call.IsInvoke() {
-							return derivesFromIndex(t.Call.Value, idx, d+1)
-						}
-						if len(t.Call.Args) > 0 {
-							return derivesFromIndex(t.Call.Args[0], idx, d+1)
-						}
-					}
-					return false
-				}
-				nEq, nGen := 0, 0
-				eachInstr(f, func(ins ssa.Instruction) {
-					call, ok := ins.(*ssa.Call)
-					if !ok {
-						return
-					}
-					hasEq := nonNeg(call.Block(), eqIdx)
-					if b, ok := call.Call.Value.(*ssa.Builtin); ok && b.Name() == "append" {
-						if !hasEq || len(call.Call.Args) < 2 {
-							return
-						}
-						var elem ssa.Value
-						if sl, ok := call.Call.Args[1].(*ssa.Slice); ok {
-							if al, ok := sl.X.(*ssa.Alloc); ok {
-								for _, r := range refsOf(al) {
-									if ia, ok := r.(*ssa.IndexAddr); ok {
-										for _, r2 := range refsOf(ia) {
-											if st, ok := r2.(*ssa.Store); ok {
-												elem = st.Val
-											}
-										}
-									}
-								}
-							}
-						}
-						if elem == nil {
-							return // the re-slicing append that removes the old element from the working copy
-						}
-						nEq++
-						c.Check(derivesFromIndex(elem, eqIdx, 0), fmt.Sprintf("%s / equal-branch-append#%d", fnKey(f), nEq), call.Pos(), "when an equal old rule exists the new list receives the old object at that index (old[equalIdx])")
-						return
-					}
-					if call.Call.StaticCallee() == nil && !call.Call.IsInvoke() {
-						if _, isB := call.Call.Value.(*ssa.Builtin); isB {
-							return
-						}
-						sig, ok := call.Call.Value.Type().Underlying().(*types.Signature)
-						if !ok || sig.Params().Len() != 2 {
-							return
-						}
-						nGen++
-						key := fmt.Sprintf("%s / generator#%d", fnKey(f), nGen)
-						if hasEq {
-							c.Violate(key, call.Pos(), "a generator is invoked although an equal old rule was found: the unchanged rule gets a new controller and loses its runtime state")
-							return
-						}
-						if nonNeg(call.Block(), reuseIdx) {
-							c.Check(derivesFromIndex(call.Call.Args[1], reuseIdx, 0), key, call.Pos(), "statistic-reusable branch: the generator receives the statistic of old[reuseStatIdx]")
-						} else {
-							c.Check(isNilConst(stripConv(call.Call.Args[1])), key, call.Pos(), "no reusable old rule: the generator receives nil")
-						}
-					}
-				})
-				if nEq == 0 {
-					c.Violate(fnKey(f)+" / equal-branch", f.Pos(), "the builder no longer reuses the controller of an unchanged rule")
-				}
-				if nGen == 0 {
-					c.Violate(fnKey(f)+" / generator", f.Pos(), "the builder never invokes a generator")
-				}
-			}
-		},
-	})
-
 	// ------------------------------------------------------------------------------------ C18
 
 	register(&Rule{
@@ -516,7 +355,7 @@ func init() {
 					case "ClearRules":
 						clearPkg = relPkg(fnPkgPath(cal))
 						fs := canonFacts(ci.Block())
-						clearOnNil = fs["data == nil"] || fs["nil == data"]
+						clearOnNil = fs["{any} == nil"] || fs["nil == {any}"]
 					case "LoadRules":
 						loadPkg = relPkg(fnPkgPath(cal))
 						loadCall, _ = ci.(*ssa.Call)
@@ -628,6 +467,34 @@ func init() {
 				}
 			}
 			c.Check(seen["rename"], fnKey(loop)+" / rename-clears", loop.Pos(), "Rename event leads to Handle(nil)")
+			// after the rename was handled (and the watch re-established) the file now at the path is read:
+			// every path from the rename's Handle(nil) either returns or reaches doReadAndUpdate before the next event
+			for _, ci := range callsIn(loop) {
+				cal := ci.Common().StaticCallee()
+				if cal == nil || cal.Name() != "Handle" || len(ci.Common().Args) != 2 || !isNilConst(stripConv(ci.Common().Args[1])) {
+					continue
+				}
+				if _, isRename := anyFact(canonFacts(ci.Block()), fmt.Sprintf("& %d)", rename), " == "); !isRename {
+					continue
+				}
+				ok, at := allPathsHit(ci.(ssa.Instruction), func(x ssa.Instruction) bool {
+					if c2, isCall := x.(ssa.CallInstruction); isCall {
+						if cl := c2.Common().StaticCallee(); cl != nil && cl.Name() == "doReadAndUpdate" {
+							return true
+						}
+					}
+					_, isRet := x.(*ssa.Return)
+					return isRet
+				}, func(x ssa.Instruction) bool {
+					_, isSel := x.(*ssa.Select)
+					return isSel
+				})
+				where := ""
+				if !ok && at != nil {
+					where = c.P.Pos(instrPos(at))
+				}
+				c.Check(ok, fnKey(loop)+" / rename-then-reload", ci.Pos(), "after a Rename event was handled the watcher re-reads the file before waiting for the next event (%s): a file re-created at the path in the meantime would otherwise not be loaded", where)
+			}
 			c.Check(seen["remove"], fnKey(loop)+" / remove-clears", loop.Pos(), "Remove event leads to Handle(nil)")
 		},
 	})
